@@ -64,6 +64,8 @@ def worker(args):
                     ctx.extra["neighbour_files_written_by_the_harness"] = dict(_c06.ROW_ORDER_COUNTS)
             except Exception:  # noqa: BLE001
                 pass
+            if _gc.UNIT_COUNTS:
+                ctx.extra["other_units_of_length"] = dict(_gc.UNIT_COUNTS)
             if _gc.UNWRAP_COUNTS:
                 ctx.extra["unwrapped_coordinates"] = dict(_gc.UNWRAP_COUNTS)
             if _gc.BIG_COUNTS:
